@@ -50,6 +50,19 @@ impl<T> List<T> {
     }
 }
 
+impl<T> Drop for List<T> {
+    // Unlinks uniquely owned nodes in a loop so that dropping a long list does not recurse.
+    fn drop(&mut self) {
+        let mut link = self.head.take();
+        while let Some(node) = link {
+            match Arc::try_unwrap(node) {
+                Ok(mut node) => link = node.next.take(),
+                Err(_) => break,
+            }
+        }
+    }
+}
+
 impl<T> Clone for List<T> {
     fn clone(&self) -> Self {
         Self {
